@@ -310,7 +310,7 @@ func init() {
 			"comment text is compared up to trailing blanks (space, tab, CR)",
 		},
 		Strata: []*fw.Stratum{
-			{Name: "decorated-programs", Quick: 20000, Thorough: 200000, Run: runC15},
+			{Name: "decorated-programs", Quick: 100000, Thorough: 500000, Run: runC15},
 		},
 	})
 }
